@@ -305,6 +305,11 @@ def name_pool(rng):
     return NAMES + rng.sample(ODD_NAMES, 1) + rng.sample(NO_GFA1_NAMES, 2) + (["A+,B"] if rng.chance(0.5) else [])
 
 
+# CIGARs with operations that only GFA1 has (`=` `X` match / mismatch, `N` skipped region of the reference, `S` soft
+# and `H` hard clipping); LINK_*: reference and query length 1-4 (segments have 6-12 bases); CONT_*: query length 5
+GFA1_ONLY_OPS = "=XNSH"
+LINK_CIGS_GFA1_ONLY = ["3=", "2=1X1M", "2X", "1M1N1M", "2M1S", "1S2M", "1H2M", "1M1H1M1H", "2M1I1=", "1=1D1X1M", "1M1P1="]
+CONT_CIGS_GFA1_ONLY = ["5=", "3=1X1M", "4M1S", "1S4M", "2M1N3M", "5M2H", "1X1I1D3M", "2=1P3="]
 CIGS = ["1M", "3M", "1M1I", "1M1D", "2M1D1M", "1M1I2M", "1I2M", "2M1D", "1M2I1D1M", "1M1P2M", "2D1M", "1M1I1D", "3M1I", "1D1M1I"]
 NAMES = ["A", "B", "C", "D"]
 
@@ -437,6 +442,33 @@ def _ex():
             X.append({"dir": "2to1", "lines": [A] + rest, "vlevels": vls})
     X.append({"dir": "1to2", "lines": ["H\tVN:Z:1.0\txx:i:1", seg1("A", 5, True), "# comment"]})
     X.append({"dir": "2to1", "lines": ["H\tVN:Z:2.0\tTS:i:5", seg2("A", 5, True), "# comment"]})
+    # GFA1 links and containments whose CIGAR uses an operation that GFA2 does not have (= X N S H): alone, next to a
+    # link that GFA2 can hold, under a path (forward, backward, `*` overlaps), named and unnamed.  Half of them are read
+    # at vlevel 0 first (there the object conversion does not re-parse what it wrote)
+    for ci, c in enumerate(LINK_CIGS_GFA1_ONLY):
+        for oi, (oa, ob) in enumerate((("+", "+"), ("+", "-"), ("-", "+"), ("-", "-"))):
+            if (ci + oi) % 2:
+                continue
+            named = (ci + oi) % 4 == 0
+            L = [seg1("A", 9, ci % 2 == 0), seg1("B", 8, ci % 3 == 0, "\txx:i:5"), seg1("C", 7, True),
+                 "L\tA\t%s\tB\t%s\t%s%s" % (oa, ob, c, "\tID:Z:lk1\tab:Z:t" if named else "")]
+            shape = (ci + oi // 2) % 4
+            if shape >= 1:
+                L.append("L\tB\t%s\tC\t+\t2M1D\tID:Z:ok1" % ob)
+            if shape == 2:
+                L.append("P\tp\tA%s,B%s,C+\t%s,2M1D" % (oa, ob, c))
+            elif shape == 3:
+                L.append("P\tp\tA%s,B%s\t*" % (oa, ob))
+                L.append("P\tq\tB%s,C+\t2M1D" % ob)
+            X.append({"dir": "1to2", "lines": L, "vlevels": (0, 3, 1, 2) if ci % 2 == 0 else (1, 3, 0, 2)})
+    for ci, c in enumerate(CONT_CIGS_GFA1_ONLY):
+        oa, ob = ("+", "+-"[ci % 2])
+        r = reflen(ops_of(c))
+        L = [seg1("A", 11, ci % 2 == 0), seg1("B", 5, True), seg1("C", 7, False),
+             "C\tA\t%s\tB\t%s\t%d\t%s%s" % (oa, ob, (0, 2, 11 - r)[ci % 3], c, "\tID:Z:c1" if ci % 2 else "")]
+        if ci % 3 == 0:
+            L.append("L\tA\t+\tC\t+\t1M1I2M")
+        X.append({"dir": "1to2", "lines": L, "vlevels": (0, 2, 1, 3) if ci % 2 else (3, 0, 1, 2)})
     return X
 
 
